@@ -139,7 +139,7 @@ class Acc:
         """key: mechanism bucket (stable, no random values); witness: literal replayable case."""
         self.violation_counts[key] += 1
         if key not in self.violations:
-            self.violations[key] = {"key": key, "what": what, "witness": jsonable(witness)}
+            self.violations[key] = {"key": key, "what": what, "witness": jsonable(witness), "hashseed": os.environ.get("PYTHONHASHSEED", "")}
 
     def dump(self) -> dict:
         return {
